@@ -412,7 +412,28 @@ CopyMove(s, u, set, dst, move) ==
     /\ UNCHANGED <<nextId, agent>>
 
 ---------------------------------------------------------------------------
+(* orderly shutdown and restart of the user server: every session is gone, the
+   state comes back from the database and the folders; start-up activates every
+   mailbox with a forced resync, so mail delivered meanwhile is noticed *)
+RestartSrv ==
+    /\ "Restart" \in Acts
+    /\ \A s \in Sess : ~ss[s].idle
+    /\ LET res == [m \in Mbox |-> ResyncRes(m, msgs[m], files[m], fseq[m], next[m],
+                                            [ss |-> [s \in Sess |-> [sel |-> "", ro |-> FALSE, idle |-> FALSE,
+                                                                     pend |-> <<>>, open |-> TRUE]],
+                                             out |-> NoOut])]
+       IN /\ msgs' = TLCEval([m \in Mbox |-> res[m].ms])
+          /\ fseq' = [m \in Mbox |-> IF res[m].n > 0 THEN res[m].fq ELSE fseq[m]]
+          /\ next' = [m \in Mbox |-> res[m].nx]
+    /\ ss' = [s \in Sess |-> [sel |-> "", ro |-> FALSE, idle |-> FALSE, pend |-> <<>>, open |-> TRUE]]
+    /\ dirty' = [m \in Mbox |-> FALSE]
+    /\ force' = [m \in Mbox |-> FALSE]
+    /\ last' = Ev("Restart", "")
+    /\ UNCHANGED <<files, nextId, agent>>
+
+---------------------------------------------------------------------------
 Next ==
+    \/ RestartSrv
     \/ \E m \in Mbox, un \in BOOLEAN, adv \in BOOLEAN : Deliver(m, un, adv)
     \/ \E m \in Mbox : Resync(m)
     \/ \E s \in Sess, m \in Mbox, ro \in BOOLEAN : Select(s, m, ro)
@@ -439,6 +460,7 @@ StepBad ==
     \cup C04_Step(Cur, last', Nxt)
     \cup C05_Step(Cur, last', Nxt)
     \cup C13_Step(Cur, last', Nxt, agent')
+    \cup C12_Step(Cur, last', Nxt)
 PropertyLayer == [][StepBad = {}]_vars
 
 P_C01 == [][UNION {C01_Step(s, view[s], last', Nxt).bad : s \in Sess} = {}]_vars
@@ -446,6 +468,7 @@ P_C0203 == [][C0203_Step(Cur, last', Nxt) = {}]_vars
 P_C04 == [][C04_Step(Cur, last', Nxt) = {}]_vars
 P_C05 == [][C05_Step(Cur, last', Nxt) = {}]_vars
 P_C13 == [][C13_Step(Cur, last', Nxt, agent') = {}]_vars
+P_C12 == [][C12_Step(Cur, last', Nxt) \cup C0203_Step(Cur, last', Nxt) = {}]_vars
 
 TypeOK ==
     /\ \A m \in Mbox : next[m] \in Nat \ {0}
